@@ -22,7 +22,11 @@ else:
 HEX_BYTES = HEX.encode()
 PENDING_PERCENT_RE = re.compile(b"%[0-9A-Fa-f]?$")
 ASCII_RE = re.compile("([\x00-\x7f]+)")
-C1_CONTROL_RE = re.compile("[\x80-\x9f]")
+# NOTE: C1 controls, and the whitespace str.strip() would remove at the ends
+# of an url, must not be revealed by unquoting
+C1_CONTROL_RE = re.compile(
+    "[\x80-\x9f\xa0\u1680\u2000-\u200a\u2028\u2029\u202f\u205f\u3000]"
+)
 
 
 def _quote_match(match):
